@@ -68,7 +68,7 @@ def refactors_table() -> str:
 
         rows.append(f"| {d.name} ({m.get('wave', 1)}) | {(m.get('title') or '').replace('|', '/')[:160]} | {files} | "
                     f"{short(m.get('verdict_at_arrival'))} | {short(m.get('verdict'))} |")
-    n_arr = {1: [0, 0], 2: [0, 0], 3: [0, 0], 4: [0, 0], 5: [0, 0]}
+    n_arr = {1: [0, 0], 2: [0, 0], 3: [0, 0], 4: [0, 0], 5: [0, 0], 6: [0, 0]}
     for d in sorted(rdir.iterdir()):
         mp = d / "meta.json"
         if mp.exists():
@@ -104,10 +104,10 @@ def findings_table() -> str:
 
 
 def waves_table() -> str:
-    waves = ("w1", "w2", "w3", "w4", "w5")
+    waves = ("w1", "w2", "w3", "w4", "w5", "w6")
 
     def wave_of(n: int) -> str:
-        return "w1" if n <= 3 else "w2" if n <= 6 else "w3" if n <= 9 else "w4" if n <= 11 else "w5"
+        return "w1" if n <= 3 else "w2" if n <= 6 else "w3" if n <= 9 else "w4" if n <= 11 else "w5" if n <= 13 else "w6"
 
     per: dict[str, dict[str, list[int]]] = {}
     unreported = []
@@ -131,8 +131,8 @@ def waves_table() -> str:
             unreported.append(f"* **{d.name}** — {(m.get('title') or '')[:200]}")
         elif prop not in cb:
             other_only.append(f"{d.name} ({', '.join(cb)})")
-    rows = ["| property | round 1 now (own / any) | round 2 at arrival | round 2 now | round 3 at arrival | round 3 now | round 4 at arrival | round 4 now | round 5 at arrival | round 5 now |",
-            "|---|---|---|---|---|---|---|---|---|---|"]
+    rows = ["| property | round 1 now (own / any) | round 2 at arrival | round 2 now | round 3 at arrival | round 3 now | round 4 at arrival | round 4 now | round 5 at arrival | round 5 now | round 6 at arrival | round 6 now |",
+            "|---|---|---|---|---|---|---|---|---|---|---|---|"]
     tot = {w: [0, 0, 0, 0, 0] for w in waves}
     for prop, r in sorted(per.items()):
         rows.append(f"| {prop} | {r['w1'][1]} / {r['w1'][2]} | " + " | ".join(f"{r[w][3]} / {r[w][4]} | {r[w][1]} / {r[w][2]}" for w in waves[1:]) + " |")
